@@ -1643,20 +1643,24 @@ namespace xsimd
         template <class A, uint16_t V0, uint16_t V1, uint16_t V2, uint16_t V3, uint16_t V4, uint16_t V5, uint16_t V6, uint16_t V7>
         XSIMD_INLINE batch<uint16_t, A> swizzle(batch<uint16_t, A> const& self, batch_constant<uint16_t, A, V0, V1, V2, V3, V4, V5, V6, V7>, requires_arch<sse2>) noexcept
         {
-            // permute within each lane
-            constexpr auto mask_lo = detail::mod_shuffle(V0, V1, V2, V3);
-            constexpr auto mask_hi = detail::mod_shuffle(V4, V5, V6, V7);
-            __m128i lo = _mm_shufflelo_epi16(self, mask_lo);
-            __m128i hi = _mm_shufflehi_epi16(self, mask_hi);
+            // permute within each 64-bit half, once with the indices of the four low output lanes and once with those
+            // of the four high output lanes: an output lane may pick its source from either half
+            constexpr auto mask_0123 = detail::mod_shuffle(V0, V1, V2, V3);
+            constexpr auto mask_4567 = detail::mod_shuffle(V4, V5, V6, V7);
+            __m128i lo_0123 = _mm_shufflelo_epi16(self, mask_0123);
+            __m128i lo_4567 = _mm_shufflelo_epi16(self, mask_4567);
+            __m128i hi_0123 = _mm_shufflehi_epi16(self, mask_0123);
+            __m128i hi_4567 = _mm_shufflehi_epi16(self, mask_4567);
 
-            __m128i lo_lo = _mm_castpd_si128(_mm_shuffle_pd(_mm_castsi128_pd(lo), _mm_castsi128_pd(lo), _MM_SHUFFLE2(0, 0)));
-            __m128i hi_hi = _mm_castpd_si128(_mm_shuffle_pd(_mm_castsi128_pd(hi), _mm_castsi128_pd(hi), _MM_SHUFFLE2(1, 1)));
+            // candidates taken from the low half and from the high half of self, for every output lane
+            __m128i from_lo = _mm_unpacklo_epi64(lo_0123, lo_4567);
+            __m128i from_hi = _mm_unpackhi_epi64(hi_0123, hi_4567);
 
-            // mask to choose the right lane
+            // mask to choose the right half
             batch_bool_constant<uint16_t, A, (V0 < 4), (V1 < 4), (V2 < 4), (V3 < 4), (V4 < 4), (V5 < 4), (V6 < 4), (V7 < 4)> blend_mask;
 
             // blend the two permutes
-            return select(blend_mask, batch<uint16_t, A>(lo_lo), batch<uint16_t, A>(hi_hi));
+            return select(blend_mask, batch<uint16_t, A>(from_lo), batch<uint16_t, A>(from_hi));
         }
 
         template <class A, uint16_t V0, uint16_t V1, uint16_t V2, uint16_t V3, uint16_t V4, uint16_t V5, uint16_t V6, uint16_t V7>
